@@ -286,10 +286,12 @@ def get_input_data(world: World, sim: SimRunner) -> InputData:
         for (src_eid, src_attr), (dest_eid, dest_attr) in dataflows:
             flow = (src_sim, delay, (src_eid, src_attr), (dest_eid, dest_attr))
             try:
-                if request_time < 0 and flow in sim.pulled_initial_data:
-                    # No output of the source can be due yet, so this
-                    # is the time for the initial data of this
-                    # connection.
+                if (
+                    src_sim.first_output_time is None
+                    or request_time < src_sim.first_output_time
+                ) and flow in sim.pulled_initial_data:
+                    # No output of the source is due yet, so this is
+                    # the time for the initial data of this connection.
                     val = sim.pulled_initial_data[flow]
                 else:
                     val = cache[src_eid][src_attr]
@@ -448,6 +450,8 @@ async def get_outputs(world: World, sim: SimRunner):
         # than filter out this data here.
         if sim.outputs is not None:
             sim.outputs[output_time] = data
+            if sim.first_output_time is None:
+                sim.first_output_time = output_time
 
         # Push forward certain data
         for (src_eid, src_attr), destinations in sim.output_to_push.items():
